@@ -16,7 +16,7 @@ import (
 
 func init() {
 	Register(&Scenario{Prop: "C05", Name: "crash-prefixes", Run: scenC05, SoftParks: true, Weight: 3,
-		Rule: "node T with 0-2 feeder peers, one database (type drawn per run); 3-10 (thorough 3-24) writes on T (single, or bursts of 2-3 concurrent writers released one persistence step at a time while replication goes on) and on feeders replicated into T under reorder/dup/delay, optionally a clean restart of T mid-history; every acknowledgement (write call returned; EventReplicated received) is stamped with T's persistence-effect count; then EVERY prefix of T's effect log (block puts, cache puts, keystore puts) is materialised as a durable image and recovered in isolation (offline block store) by NewOrbitDB + Open + Load(-1); oracle per prefix: recovered log contains every entry acknowledged at or before the prefix, only entries really written, is closed under next, visible state equals LWW replay of the recovered log, identity equals the pre-crash one once the first NewOrbitDB had returned, and a new write succeeds; one evaluation = one history with all its prefixes; non-trivial = >=1 prefix strictly between two acknowledgements and (with feeders) >=1 replicated batch acknowledged"})
+		Rule: "node T with 0-2 feeder peers, one database (type drawn per run); 3-10 (thorough 3-24) writes on T (single, or bursts of 2-3 concurrent writers released one persistence step at a time while replication goes on) and on feeders replicated into T under reorder/dup/delay, optionally a clean restart of T mid-history (one in three of them without Load: the application writes on the reopened store as it is, and loads later or never); every acknowledgement (write call returned; EventReplicated received) is stamped with T's persistence-effect count; then EVERY prefix of T's effect log (block puts, cache puts, keystore puts) is materialised as a durable image and recovered in isolation (offline block store) by NewOrbitDB + Open + Load(-1); oracle per prefix: recovered log contains every entry acknowledged at or before the prefix, only entries really written, is closed under next, visible state equals LWW replay of the recovered log, identity equals the pre-crash one once the first NewOrbitDB had returned, and a new write succeeds; one evaluation = one history with all its prefixes; non-trivial = >=1 prefix strictly between two acknowledgements and (with feeders) >=1 replicated batch acknowledged"})
 }
 
 type c05ack struct {
@@ -99,10 +99,33 @@ func scenC05(k *K) {
 			if k.opsInFlightOn(0) == 0 {
 				c.Down(0, false)
 				k.Steps(k.C.Intn(3))
-				if err := c.Up(0); err != nil {
-					k.Failf("C05/restart-load-error", "clean restart of T failed: %v", err)
+				if k.C.Chance(1, 3) {
+					// the application reopens the database and writes without loading it first
+					if err := c.UpWithoutLoad(0); err != nil {
+						k.Failf("C05/restart-load-error", "clean restart of T failed: %v", err)
+					}
+					watch()
+					for j, m := 0, k.C.Range(1, 2); j < m; j++ {
+						if wr := c.RandomWrite(0); wr != nil {
+							k.W.mu.Lock()
+							acks = append(acks, c05ack{hashes: []string{wr.Hash}, effAt: wr.EffAt, kind: "write"})
+							k.W.mu.Unlock()
+						}
+					}
+					if k.C.Chance(1, 2) {
+						st := c.Stores[0]
+						k.Do(0, "load -1 (late)", 400, func() (interface{}, error) {
+							ctx, cancel := OpCtx(10 * time.Minute)
+							defer cancel()
+							return nil, st.Load(WithOfflineReads(ctx), -1)
+						})
+					}
+				} else {
+					if err := c.Up(0); err != nil {
+						k.Failf("C05/restart-load-error", "clean restart of T failed: %v", err)
+					}
+					watch()
 				}
-				watch()
 				k.W.Stat("clean-restart-of-T")
 			}
 		case 2:
